@@ -70,6 +70,8 @@ type Action struct {
 	Forge  int    `json:"forge,omitempty"`
 	Ident  int    `json:"ident,omitempty"`
 	Module string `json:"module,omitempty"`
+	// raw precompile call (kind "rawCall"): Module names the precompile, Data is the calldata (hex)
+	Data string `json:"data,omitempty"`
 }
 
 func (a Action) String() string {
@@ -126,6 +128,7 @@ type Machine struct {
 	avsCommit    map[string]avsCommitRec // operator/task address/id -> what phase one committed to
 	lastEth      *ethBuilt               // the last Ethereum transaction sent by an "ethTx" action
 	blockGas     uint64                  // gas limits of the Ethereum transactions included in the block in progress
+	rawCapBits   int                     // cap on integer arguments of raw precompile calls (listed overflow findings)
 }
 
 type avsCommitRec struct {
@@ -493,6 +496,8 @@ func (m *Machine) Apply(a *Action) (Outcome, error) {
 		return fromCall(c.Precompile(m.caller(a.Caller), sim.AssetsPrecompileAddr, c.AssetsABI(), "updateToken", uint32(as.LzID), pad32b(as.AddrBytes()), "probe-"+fmt.Sprint(a.N)))
 	case "updateParams":
 		return m.updateParams(a)
+	case "rawCall":
+		return m.rawCall(a)
 	}
 	if strings.HasPrefix(a.Kind, "avs") {
 		return m.applyAvs(a)
